@@ -373,3 +373,30 @@ contract(
               ("n_in_denominator", "tot = float(cnt_gc_up + cnt_gc_lo + cnt_at_up + cnt_at_lo)", 'tot = float(len(subseq) - subseq.count("N"))'),
               ("lo_counts_gc_only", "frac_lo = (cnt_at_lo + cnt_gc_lo) / tot", "frac_lo = cnt_gc_lo / tot")],
 )
+
+
+# ----------------------------------------------------------------------------- deductive: shifting a sample's sex chromosomes
+from .c_call import CNA, CHROM, GENE       # noqa: E402
+
+contract(
+    "cnvlib/reference.py::shift_sex_chroms",
+    params=dict(cnarr=ObjT("CopyNumArray", data=TabT(index="range", chromosome=CHROM, start=Int, end=Int, gene=GENE, log2=Real),
+                           meta=DictT(sample_id=Str)),
+                sexes=DictT(s=Bool), ref_flat_logr=VecT(Real), is_chr_x=VecT(Bool), is_chr_y=VecT(Bool)),
+    returns=Lit(None),
+    requires=["cnarr.meta['sample_id'] == 's'", "len(ref_flat_logr) == len(cnarr.data)", "len(is_chr_x) == len(cnarr.data)",
+              "len(is_chr_y) == len(cnarr.data)"],
+    modifies=("cnarr.data",),
+    ensures=[
+        ("rowcount", "len(cnarr.data) == len(old(cnarr.data))"),
+        # a female sample: chrX as the autosomes, chrY pinned at -1; a male sample: X and Y raised by one copy
+        ("shifted_to_reference_sex", "forall(0, len(cnarr.data), lambda k: cnarr.data.log2[k] == ite(sexes['s'], "
+                                     "ite(is_chr_y[k], -1, old(cnarr.data).log2[k] + ref_flat_logr[k]), "
+                                     "old(cnarr.data).log2[k] + ref_flat_logr[k] + ite(is_chr_x[k] or is_chr_y[k], 1, 0)))"),
+        ("other_columns", "forall(0, len(cnarr.data), lambda k: cnarr.data.chromosome[k] == old(cnarr.data).chromosome[k] and "
+                          "cnarr.data.start[k] == old(cnarr.data).start[k] and cnarr.data.end[k] == old(cnarr.data).end[k])"),
+    ],
+    props=("C05",), domain="skip",
+    canaries=[("female_y_shifted_not_pinned", 'cnarr[is_chr_y, "log2"] = -1.0', 'cnarr[is_chr_y, "log2"] -= 1.0'),
+              ("male_x_not_raised", "cnarr[is_chr_x | is_chr_y, \"log2\"] += 1.0", "cnarr[is_chr_y, \"log2\"] += 1.0")],
+)
